@@ -14,8 +14,8 @@ PID = "C19"
 LEVEL = "proof"
 LEAN = ["SaVerif.Props.C19"]
 META = {
-    "text": "Lean theorems (any graph size, any item order, duplicates allowed): output of sort is a permutation of the items, every dependency pair with both ends among the items is ordered parent-first, subsets are internally independent, self-dependencies raise, the loop terminates within len(items) rounds. The model is a hand transcription of util/topological.py tied to it by an exhaustive differential run over all digraphs on <=4 nodes plus random larger graphs, and the property itself is re-checked on the implementation output by an independent oracle.",
-    "note": "Trusted: Lean kernel; the correspondence harness (differential, exhaustive only up to 4 nodes); Python set/list semantics modelled as lists. error-iff-cycle and find_cycles exactness: see evidence theorems list for what is proved vs. correspondence-only.",
+    "text": "Lean theorems (any graph size, any item order, duplicates allowed): output of sort is a permutation of the items, every dependency pair with both ends among the items is ordered parent-first, subsets are internally independent, sort raises iff the dependencies among the items contain a cycle (sort_error_iff_cycle), find_cycles returns exactly the nodes on some cycle (find_cycles_exact), both loops terminate (fuel sufficiency proved). The model is a hand transcription of util/topological.py tied to it by an exhaustive differential run over all digraphs on <=4 nodes plus random larger graphs, and the property itself is re-checked on the implementation output by an independent oracle.",
+    "note": "Trusted: Lean kernel; the correspondence harness (differential, exhaustive only up to 4 nodes); Python set/list semantics modelled as lists. Set-iteration order in find_cycles is modelled as list order; the exactness theorem makes the result order-independent as a set.",
     "technique": "Lean 4 proof by induction over the sort loop + exhaustive small-scope correspondence with the Python implementation",
     "design_ref": "DESIGN.md §3 C19",
 }
